@@ -158,6 +158,17 @@ def eval_expr(I, st, env, e, frame):
         return [(st, FuncV(frame.mod, e))]
     if isinstance(e, ast.Starred):
         return I.eval(st, env, e.value, frame)
+    if isinstance(e, ast.Yield):
+        out = []
+        for (s2, v) in (I.eval(st, env, e.value, frame) if e.value is not None else [(st, NONE)]):
+            if isinstance(v, Raised):
+                out.append((s2, v))
+                continue
+            y = env.get('@yield')
+            s2.seqs[y.oid] = s2.seqs[y.oid] + (v,)
+            s2.ev('yield', frame.qual(), v)
+            out.append((s2, NONE))
+        return out
     raise Unsupported('expression %s in %s' % (type(e).__name__, frame.qual()))
 
 
